@@ -140,7 +140,7 @@ Modify(i, signer, d) ==
       dl   == IF d < 0 THEN -d ELSE d
       amts == Deltas(p.lo, p.up, dl, d > 0)
       u    == p.owner
-  IN /\ p.open /\ signer = p.owner
+  IN /\ p.open /\ (signer = p.owner \/ d = 0)          \* update_fees_and_rewards (d = 0) takes no signer at all
      /\ p.L + d >= 0 /\ (d # 0 \/ p.L > 0)
      /\ pos' = [pos EXCEPT ![i] = s.np]
      /\ ticks' = [ticks EXCEPT ![p.lo] = TickMod(p.lo, d, FALSE), ![p.up] = TickMod(p.up, d, TRUE)]
@@ -169,6 +169,13 @@ CollectFees(i, signer) ==
   /\ pos' = [pos EXCEPT ![i].owa = 0, ![i].owb = 0]
   /\ last' = [op |-> "collect", pos |-> i, signer |-> signer, paid |-> <<p.owa, p.owb>>]
   /\ UNCHANGED <<sp, tc, liq, fg, po, ticks, shareHi, shareLo, credited, nsteps, lmax>>
+
+(* The traders' segment may also be cut at any moment: a run of swaps that STARTS anywhere (e.g. with the price strictly inside a tick,
+   left there by earlier swaps) must not be profitable either - every contiguous run of swaps is then the prefix of some segment.    *)
+Forget ==
+  /\ gain' = NewSegment
+  /\ last' = [op |-> "forget"]
+  /\ UNCHANGED <<sp, tc, liq, fg, po, ticks, pos, vault, shareHi, shareLo, credited, nsteps, lmax>>
 
 CollectProtocol ==
   /\ vault["a"] >= po["a"] /\ vault["b"] >= po["b"]
@@ -261,6 +268,7 @@ Next ==
      \/ \E u \in Traders, a \in Amounts, e \in BOOLEAN, d \in BOOLEAN, lm \in Limits, th \in Thresholds :
            Swap(u, a, IF th = -1 THEN (IF e THEN 0 ELSE 1000000) ELSE th, lm, e, d)
      \/ CollectProtocol
+     \/ Forget
 
 Spec == Init /\ [][Next]_vars
 OpsBound == ops <= MaxOps
@@ -329,7 +337,7 @@ SplitExact ==
 
 (* C04 (model level): funds of a position move only on its owner's signature *)
 OwnerSigned ==
-  last.op \in {"increase", "decrease", "update", "collect", "close"} =>
+  last.op \in {"increase", "decrease", "collect", "close"} =>
      (last.op = "close" \/ last.signer = pos[last.pos].owner)
 
 (* C18 (model level): a closed position was empty *)
